@@ -150,6 +150,9 @@ enum Inject {
     Benign { seed: u64 },
     /// hard error from the simulated input stream at its j-th read call
     InputErr { call: u64 },
+    /// hook-free fault source: RLIMIT_FSIZE = limit bytes for every output file of the child;
+    /// the kernel kills the process (SIGXFSZ) or, with the signal ignored, fails the write (EFBIG)
+    Fsize { limit: u64, ignore_signal: bool },
 }
 
 impl Inject {
@@ -170,6 +173,7 @@ impl Inject {
             ),
             Inject::Benign { seed } => format!("benign:{seed}"),
             Inject::InputErr { call } => format!("inputerr:{call}"),
+            Inject::Fsize { limit, ignore_signal } => format!("fsize:{limit}:{}", if *ignore_signal { "efbig" } else { "kill" }),
         }
     }
     fn decode(s: &str) -> Option<Inject> {
@@ -178,6 +182,7 @@ impl Inject {
             "none" => Inject::None,
             "benign" => Inject::Benign { seed: p[1].parse().ok()? },
             "inputerr" => Inject::InputErr { call: p[1].parse().ok()? },
+            "fsize" => Inject::Fsize { limit: p[1].parse().ok()?, ignore_signal: p[2] == "efbig" },
             "io" => {
                 let k = p[1].parse().ok()?;
                 let decision = match p[2] {
@@ -199,6 +204,8 @@ impl Inject {
             Inject::None => "none",
             Inject::Benign { .. } => "benign-short-or-interrupted",
             Inject::InputErr { .. } => "input-stream-error",
+            Inject::Fsize { ignore_signal: false, .. } => "rlimit-fsize-kill",
+            Inject::Fsize { ignore_signal: true, .. } => "rlimit-fsize-efbig",
             Inject::Io { decision, .. } => match decision {
                 IoDecision::Fail(_) => "io-error",
                 IoDecision::Interrupted => "interrupted",
@@ -276,6 +283,19 @@ pub fn child_main(args: &Args) -> ! {
         Inject::InputErr { call } => {
             hooks.set_plan(Some(IoPlan::Record));
             opts.sim_cfg.err_at_call = Some(*call);
+        }
+        Inject::Fsize { limit, ignore_signal } => {
+            hooks.set_plan(Some(IoPlan::Record));
+            unsafe {
+                if *ignore_signal {
+                    libc::signal(libc::SIGXFSZ, libc::SIG_IGN);
+                }
+                let lim = libc::rlimit {
+                    rlim_cur: *limit,
+                    rlim_max: *limit,
+                };
+                libc::setrlimit(libc::RLIMIT_FSIZE, &lim);
+            }
         }
     }
     crate::hooks::set_fired_file(Some(case_dir.join("fired.txt")));
@@ -498,6 +518,18 @@ fn injections(s: &Scenario, r: &Reference, tier: Tier) -> Vec<Inject> {
             });
         }
     }
+    // hook-free cross-check: the kernel's file size limit as fault source, every limit up to the
+    // largest output file (strided in the quick tier), killing and failing variants
+    if !s.preexisting && !s.sim_source {
+        let largest = r.files.iter().map(|(_, b)| b.len() as u64).max().unwrap_or(0);
+        let stride = if tier == Tier::Quick { 13 } else { 1 };
+        let mut l = 0;
+        while l <= largest {
+            out.push(Inject::Fsize { limit: l, ignore_signal: false });
+            out.push(Inject::Fsize { limit: l, ignore_signal: true });
+            l += stride;
+        }
+    }
     let n_benign = if tier == Tier::Quick { 6 } else { 40 };
     for j in 0..n_benign {
         out.push(Inject::Benign {
@@ -668,6 +700,8 @@ pub fn worker_main(args: &Args, w: usize, n: usize) -> ! {
                 Inject::Io { .. } => fired.is_some(),
                 Inject::Benign { .. } => benign_fired > 0,
                 Inject::InputErr { .. } => sim_err > 0,
+                // the limit bit if the creation did not end normally
+                Inject::Fsize { .. } => status != "ok",
                 Inject::None => false,
             };
             let (violation, state) = judge(s, inject, &status, &case_dir, &new_ref, old_ref.as_ref());
